@@ -153,8 +153,27 @@ pub fn run_c02(tier: &str, only: Option<String>) -> i32 {
         }
     });
     run.stats = stats;
+    // a definition the model's descriptors do not express: evolution steps on the enum itself. The
+    // wrapper is then an evolved record whose chunk 0 holds the constructor (index ++ record).
+    if run.only.as_ref().map(|k| k == "enum-level-evolution").unwrap_or(true) {
+        for (v, want, got, back) in universe::extra::enum_level_evolution() {
+            run.stats.states += 1;
+            run.stats.transitions += 2;
+            run.stats.validated += 2;
+            if got.as_ref() != Ok(&want) || back != Ok(true) {
+                run.stats.violate(
+                    "C02 enum with evolution steps of its own does not round-trip".into(),
+                    "enum-level-evolution".into(),
+                    json!({"value": v, "prescribed": hex(&want), "library_bytes": got.map(|b| hex(&b)), "decode_of_prescribed_is_the_value": back}),
+                );
+                break;
+            }
+            run.stats.bump("enum-level-evolution:round-trips");
+            run.stats.nontrivial += 1;
+        }
+    }
     run.stats.add("programs", programs.len() as u64);
-    run.rule = "every generated #[derive(BinaryCodec)] declaration (unit/empty/1-3 field structs over 14 field types, transient at every position, Option spellings and alias, recursive types, enums over 7 variant kinds sorted/unsorted, one declaration per node of the compiled history trees) x every small-scope value: derived bytes == bytes of the declaration interpreted by the model == bytes of the field-by-field driver; decode of own encoding and of all alternative forms agrees three ways; damaged inputs judged alike by derived impl and driver".into();
+    run.rule = "every generated #[derive(BinaryCodec)] declaration (unit/empty/1-3 field structs over 14 field types, transient at every position, Option spellings and alias, recursive types, enums over 7 variant kinds sorted/unsorted, one declaration per node of the compiled history trees) x every small-scope value: derived bytes == bytes of the declaration interpreted by the model == bytes of the field-by-field driver; decode of own encoding and of all alternative forms agrees three ways; damaged inputs judged alike by derived impl and driver; plus an enum with evolution steps of its own (bytes and round trip of each kind of constructor)".into();
     run.bounds = json!({"programs": programs.len(), "params": format!("{:?}", common::params(&run))});
     run.assumptions = vec![
         "the descriptor of each declaration is emitted from the same abstract declaration as the Rust text (refmodel::spec), never parsed back from it".into(),
